@@ -13,7 +13,7 @@ import valgen
 import xv
 from xv import log
 
-CORPUS_VERSION = "3"
+CORPUS_VERSION = "7"
 
 BOUNDARY = [0, 1, 2, 3, 0xffff, 0x10000, 0x7fffffff, 0x80000000, 0xfffffffe, 0xffffffff]
 
@@ -33,9 +33,8 @@ def quick_specs(seed, tier):
     rng = random.Random(seed)
     m = specgen.matrix()
     if tier == "quick":
-        rng2 = random.Random(seed + 17)
-        picked = [s for i, s in enumerate(m) if i % 3 == seed % 3 or rng2.random() < 0.15]
-        n_random = 40
+        picked = m
+        n_random = 30
     else:
         picked = m
         n_random = 400
@@ -54,16 +53,27 @@ def quick_specs(seed, tier):
         "union bothvoid switch (bool flag) { case TRUE: void; case FALSE: void; };\n",
         "struct node { unsigned int val; node *next; };\n",
         "typedef opaque fh<8>;\nstruct usefh { fh h; };\n",
+        "struct bigmsg { opaque sid[12]; opaque verf<16>; int seq; opaque data<>; opaque tag<8>; };\n",
+        "typedef opaque smallfh<12>;\nstruct bigwrap { smallfh fh; opaque payload<>; smallfh fh2; };\n",
+        "struct z { opaque a<>; };\nstruct zs { z items<>; };\n",
+        "union onlyvoid switch (int k) { case 0: void; };\nstruct ovs { onlyvoid marks<>; unsigned int tail; };\n",
+        "union voiddef switch (unsigned int k) { default: void; };\nstruct vds { voiddef marks<4>; voiddef one; };\n",
+
+        "const N = 4;\nconst M = 2;\nstruct onechar { int a[N]; opaque d<N>; string s<M>; onechar *q; };\ntypedef opaque v1[N];\ntypedef onechar w1<M>;\n",
+        "union fallsdef switch (int k) { case 1: int a; case 2: case 3: default: unsigned hyper rest; };\n",
         "const N = 2;\nstruct leaf { string s<4>; };\nstruct mid { leaf ls<N>; leaf lf[N]; };\nstruct top { mid m; mid *om; mid ms<>; };\n",
     ]
     out += [("fixed", s) for s in fixed]
+    # zero-wire-size array elements: only well-formed inputs (a count of 2^32-1 is then a
+    # legitimate 4-byte encoding of 4 billion elements; see DESIGN.md section 5)
+    out.append(("fixed_validonly", "struct marker { opaque pad[0]; };\nstruct holder0 { marker marks<>; unsigned int tail; };\n"))
     return out
 
 
-def gen_cases(rng, cx, ast, types, tier):
+def gen_cases(rng, cx, ast, types, tier, valid_only=False):
     """returns list of dict(type, off, input(bytes), kind, expect(optional), x(optional))"""
     cases = []
-    nvals = 3 if tier == "quick" else 8
+    nvals = 2 if tier == "quick" else 8
     for ty in types:
         t = cx.types.get(ty)
         picks = [None] * nvals
@@ -94,17 +104,19 @@ def gen_cases(rng, cx, ast, types, tier):
                           "expect": valgen.expected_line(x, off)})
             # strict prefixes: every byte-granular one when short, sampled when long
             cuts = list(range(len(e)))
-            if len(cuts) > (24 if tier == "quick" else 200):
-                cuts = sorted(rng.sample(cuts, 24 if tier == "quick" else 200))
+            if len(cuts) > (12 if tier == "quick" else 200):
+                cuts = sorted(rng.sample(cuts, 12 if tier == "quick" else 200))
             for c in cuts:
                 cases.append({"type": ty, "off": 0, "input": e[:c], "kind": "prefix", "full": len(e)})
+            if valid_only:
+                continue
             # boundary values in every word
             nwords = len(e) // 4
             widx = list(range(nwords))
-            if len(widx) > (10 if tier == "quick" else 64):
-                widx = sorted(rng.sample(widx, 10 if tier == "quick" else 64))
+            if len(widx) > (6 if tier == "quick" else 64):
+                widx = sorted(rng.sample(widx, 6 if tier == "quick" else 64))
             for w in widx:
-                vals = BOUNDARY if tier != "quick" else rng.sample(BOUNDARY, 3)
+                vals = BOUNDARY if tier != "quick" else rng.sample(BOUNDARY, 2)
                 for v in vals:
                     m = e[:4 * w] + struct.pack(">I", v) + e[4 * w + 4:]
                     if m != e:
@@ -147,13 +159,16 @@ def gen_cases(rng, cx, ast, types, tier):
                                           "input": e[:o] + struct.pack(">I", v % 2 ** 32) + e[o + 4:],
                                           "kind": "disc", "expect_err": "UnknownVariant(%d)" % sv, "at": o})
             # a count one above the declared maximum, with the data present
-            try:
-                xo = over_max_value(cx, ty, rng)
-            except valgen.Unsupported:
-                xo = None
-            if xo is not None:
-                cases.append({"type": ty, "off": 0, "input": valgen.enc(xo), "kind": "overmax",
-                              "expect_err": "InvalidLength"})
+            for excess in (1, 2, 3, 4, 5):
+                try:
+                    xo = over_max_value(cx, ty, rng, excess)
+                except valgen.Unsupported:
+                    xo = None
+                if xo is not None:
+                    cases.append({"type": ty, "off": 0, "input": valgen.enc(xo), "kind": "overmax",
+                                  "expect_err": "InvalidLength"})
+        if valid_only:
+            continue
         # arbitrary word sequences
         for _ in range(3 if tier == "quick" else 20):
             n = rng.choice([0, 1, 2, 3, 5, 8, 16])
@@ -164,26 +179,54 @@ def gen_cases(rng, cx, ast, types, tier):
     return cases
 
 
+def special_cases(obs, types, failed_idx, rng):
+    """large messages (a small opaque in front of / behind > 64 KiB of payload) and the
+    zero-wire-size element probe of finding F1"""
+    out = []
+    for o in obs:
+        i = o["index"]
+        if i not in types or i in failed_idx:
+            continue
+        if "bigmsg" in types[i]:
+            for n in (70000, 140001):
+                x = ("Struct", "bigmsg", [("OpaqueF", bytes(range(12))), ("OpaqueV", bytes(range(9))), ("I32", -5),
+                                          ("OpaqueV", bytes((k * 7) % 256 for k in range(n))), ("OpaqueV", b"tail")])
+                for off in (0, 5):
+                    out.append({"spec": i, "type": "bigmsg", "off": off, "input": valgen.enc(x) + b"\x01\x02", "kind": "valid_big",
+                                "x": x, "expect": valgen.expected_line(x, off)})
+        if "bigwrap" in types[i]:
+            x = ("Struct", "bigwrap", [("Alias", "smallfh", ("OpaqueV", b"0123456789ab")),
+                                       ("OpaqueV", bytes((k * 3) % 256 for k in range(100000))),
+                                       ("Alias", "smallfh", ("OpaqueV", b"xy"))])
+            out.append({"spec": i, "type": "bigwrap", "off": 0, "input": valgen.enc(x), "kind": "valid_big",
+                        "x": x, "expect": valgen.expected_line(x, 0)})
+        if "zs" in types[i]:
+            for cnt in (3, 0x800):
+                out.append({"spec": i, "type": "zs", "off": 0, "input": struct.pack(">I", cnt) + b"\0" * 8, "kind": "zerosize"})
+    return out
+
+
 class OverCtx(valgen.Ctx):
     """a context that lets exactly one bounded position exceed its maximum by one"""
 
-    def __init__(self, ast):
+    def __init__(self, ast, excess=1):
         super().__init__(ast)
         self.armed = True
         self.fired = False
+        self.excess = excess
 
     def max_val(self, s):
         m = super().max_val(s)
         if s is not None and m is not None and self.armed and m < 64:
             self.armed = False
             self.fired = True
-            self.force = m + 1
-            return m + 1
+            self.force = m + self.excess
+            return m + self.excess
         return m
 
 
-def over_max_value(cx, ty, rng):
-    ocx = OverCtx(cx.ast)
+def over_max_value(cx, ty, rng, excess=1):
+    ocx = OverCtx(cx.ast, excess)
 
     def sizes(m):
         if getattr(ocx, "force", None) is not None:
@@ -232,12 +275,7 @@ def build(tier, seed):
     C["compile_failed"] = [(i, msg[-3000:]) for i, msg in failed]
     C["types"] = types
     log("corpus: runner built (%d modules, %d failed) %.0fs" % (len(mods), len(failed), time.time() - t0))
-    r = xv.sh([exe, "sizes"])
-    sizes = {}
-    for ln in r.stdout.split("\n"):
-        p = ln.split()
-        if len(p) == 4 and p[0] == "size":
-            sizes[(int(p[1]), p[2])] = int(p[3])
+    sizes = xv.runner_sizes(exe)
     C["sizes"] = sizes
     # cases
     rng = random.Random(seed * 31 + 5)
@@ -248,19 +286,25 @@ def build(tier, seed):
         if i not in types or i in failed_idx:
             continue
         cx = valgen.Ctx(o["ast"])
-        cs = gen_cases(rng, cx, o["ast"], types[i], tier)
+        cs = gen_cases(rng, cx, o["ast"], types[i], tier, valid_only=(specs[i][0] == "fixed_validonly"))
         for c in cs:
             c["spec"] = i
         allcases += cs
+    allcases += special_cases(obs, types, failed_idx, rng)
     lines = xv.run_runner(exe, ["%d %s %d %s" % (c["spec"], c["type"], c["off"], c["input"].hex()) for c in allcases])
     for c, l in zip(allcases, lines):
+        if len(l) > 60000 and c["kind"] != "valid_big":
+            c["huge"] = len(l)
+            l = l[:200] + " ...HUGE(%d)" % len(l)
+            c["kind"] = c["kind"] + "_huge"
         c["real"] = l
     C["cases"] = allcases
     log("corpus: %d cases run %.0fs" % (len(allcases), time.time() - t0))
     # K3: model vs real on every case
     by_spec = {}
     for n, c in enumerate(allcases):
-        by_spec.setdefault(c["spec"], []).append(n)
+        if c["kind"] != "valid_big" and "huge" not in c:
+            by_spec.setdefault(c["spec"], []).append(n)
     lookup = {o["index"]: o for o in obs}
     groups, gmap = [], []
     for i, ns in by_spec.items():
